@@ -8,6 +8,7 @@ import (
 	"maps"
 	"slices"
 	"strings"
+	"time"
 
 	"github.com/honeycombio/refinery/config"
 	jsoniter "github.com/json-iterator/go"
@@ -897,6 +898,36 @@ func (p Payload) MarshalJSON() ([]byte, error) {
 }
 
 // Implements msgpack.Marshaler.
+// appendMemoizedValue is msgp.AppendIntf, except that a time.Time (also one
+// inside a map or an array) is written as the standard msgpack timestamp
+// extension it arrived as. msgp.AppendIntf would use tinylib's private
+// extension type 5, which other msgpack decoders cannot read as a time.
+func appendMemoizedValue(buf []byte, value any) ([]byte, error) {
+	var err error
+	switch v := value.(type) {
+	case time.Time:
+		return msgp.AppendTimeExt(buf, v), nil
+	case map[string]any:
+		buf = msgp.AppendMapHeader(buf, uint32(len(v)))
+		for k, e := range v {
+			buf = msgp.AppendString(buf, k)
+			if buf, err = appendMemoizedValue(buf, e); err != nil {
+				return buf, err
+			}
+		}
+		return buf, nil
+	case []any:
+		buf = msgp.AppendArrayHeader(buf, uint32(len(v)))
+		for _, e := range v {
+			if buf, err = appendMemoizedValue(buf, e); err != nil {
+				return buf, err
+			}
+		}
+		return buf, nil
+	}
+	return msgp.AppendIntf(buf, value)
+}
+
 // Inefficient, only here for test cases where we serialize a Payload field.
 func (p Payload) MarshalMsgpack() ([]byte, error) {
 	return p.MarshalMsg(nil)
@@ -933,7 +964,7 @@ func (p Payload) MarshalMsg(buf []byte) ([]byte, error) {
 
 		buf = msgp.AppendString(buf, key)
 		var err error
-		buf, err = msgp.AppendIntf(buf, value)
+		buf, err = appendMemoizedValue(buf, value)
 		if err != nil {
 			return buf, err
 		}
